@@ -16,7 +16,7 @@ TRUSTED_BASE = [
     "slice::sort_by modelled as a stable sort (theorem C11_stable_sort: any stable sort computes the same list)",
 ]
 LEVEL = ("Coq theorems (Props/C11.v) about the model of the generator, for EVERY accepted definition: the unit list is a permutation of the declared units (reference unit included), has no adjacent inversion of the sort key, and is "
-         "stable - every group of equal key is the declaration's subsequence, the reference unit leading its group - so permuting the attributes can only reorder units that share a key; name order without reference unit; path selection; "
+         "stable - every group of equal key is the declaration's subsequence, the reference unit leading its group - so permuting the attributes can only reorder units that share a key - stated directly: for two definitions whose attribute lists are permutations of each other the verdict, the reference unit, the multiset of units and the sequence of keys coincide (C11_attribute_order_general), and the analysed result is IDENTICAL when no two units share a name (no reference unit) resp. a scale value (C11_attribute_order_names / _scales); name order without reference unit; path selection; "
          "a general stable-sort theorem (permutation, sortedness, stability) from asymmetry and negative transitivity, instantiated for the f64 key order (via the reals) and the name order. The model equals the generator on every definition "
          "of the tree (computed). On every run fresh seeded definitions are pushed through the repository's real macro code and compared with the model and with a python re-derivation from the property text; a sample is compiled by rustc "
          "in both amount types and its registry dumped. Partial: syn / convert_case / sort_by are modelled.")
